@@ -154,3 +154,251 @@ Section Chunks.
       intros r Hr'. unfold bound. destruct (0 =? nchunks P) eqn:E; lia.
   Qed.
 End Chunks.
+Set Default Proof Using "Type".
+
+(* ------------------------------------------------------------------ *)
+(* more list facts                                                     *)
+(* ------------------------------------------------------------------ *)
+Lemma zlen_nonneg {A} (l : list A) : 0 <= zlen l.
+Proof. unfold zlen. lia. Qed.
+
+Lemma nth_zrange n k : (k < n)%nat -> nth k (zrange n) 0 = Z.of_nat k.
+Proof.
+  intros H. unfold zrange. change 0 with (Z.of_nat 0). rewrite map_nth, seq_nth by lia. reflexivity.
+Qed.
+
+Lemma NoDup_zrange n : NoDup (zrange n).
+Proof.
+  unfold zrange. apply FinFun.Injective_map_NoDup; [|apply seq_NoDup].
+  intros a b H. lia.
+Qed.
+
+Lemma skipn_cons_nth {A} (l : list A) k d : (k < length l)%nat -> skipn k l = nth k l d :: skipn (S k) l.
+Proof.
+  revert k. induction l as [|x l IH]; intros k H; cbn in H; [lia|].
+  destruct k; [reflexivity|]. cbn [skipn nth]. apply IH. lia.
+Qed.
+
+Lemma nth_firstn_lt {A} (l : list A) n i d : (i < n)%nat -> nth i (firstn n l) d = nth i l d.
+Proof.
+  revert n i. induction l as [|x l IH]; intros n i H; [now rewrite firstn_nil|].
+  destruct n; [lia|]. destruct i; [reflexivity|]. cbn. apply IH. lia.
+Qed.
+
+Lemma nth_skipn_add {A} (l : list A) q i d : nth i (skipn q l) d = nth (q + i) l d.
+Proof.
+  revert l. induction q as [|q IH]; intros l; [reflexivity|].
+  destruct l as [|x l]; [now destruct i|]. cbn. apply IH.
+Qed.
+
+Lemma in_slice {A} (l : list A) p q r d : In r (firstn p (skipn q l)) ->
+  exists k, (q <= k < q + p)%nat /\ (k < length l)%nat /\ nth k l d = r.
+Proof.
+  intros H. destruct (In_nth _ _ d H) as [j [Hj Hn]].
+  rewrite firstn_length, skipn_length in Hj.
+  exists (q + j)%nat. repeat split; try lia.
+  rewrite <- Hn. rewrite nth_firstn_lt by lia. now rewrite nth_skipn_add.
+Qed.
+
+Lemma sequence_map_some {A B} (f : A -> option B) (g : A -> B) l :
+  (forall x, In x l -> f x = Some (g x)) -> sequence (map f l) = Some (map g l).
+Proof.
+  induction l as [|x l IH]; intros H; cbn; [reflexivity|].
+  rewrite (H x) by now left. rewrite IH; [reflexivity|]. intros y Hy. apply H. now right.
+Qed.
+
+Lemma sequence_some_length {A} (l : list (option A)) r : sequence l = Some r -> length r = length l.
+Proof.
+  revert r. induction l as [|[a|] l IH]; intros r H; cbn in H; try discriminate.
+  - now inversion H.
+  - destruct (sequence l); [|discriminate]. inversion H; subst. cbn. f_equal. now apply IH.
+Qed.
+
+(* ------------------------------------------------------------------ *)
+(* one chunk job extracts the global window of each of its rows        *)
+(* ------------------------------------------------------------------ *)
+Section Window.
+  Variable V : Type.
+  Variable src : Z -> Z -> V.
+  Variable P : cfg.
+  Hypothesis Hns : 1 <= c_ns P.
+  Hypothesis Hsize : 1 <= c_size P.
+  Hypothesis Hto : 0 <= c_to P <= c_L P.
+  Hypothesis Hts : c_to P <= c_size P \/ nchunks P = 1.
+  Set Default Proof Using "Hns Hsize Hto Hts".
+
+  (* a row of a valid spike: strictly inside the window margins, peak channel on the probe *)
+  Definition valid_row (r : row) : Prop :=
+    c_to P < r_sample r < c_ns P - (c_L P - c_to P) /\ 0 <= r_chan r < zlen (c_geom P).
+
+  Lemma zlen_cidx : zlen (cidx P) = zlen (c_geom P).
+  Proof.
+    unfold cidx, channel_index, chans, zlen. cbv zeta. now rewrite map_length, zrange_length.
+  Qed.
+
+  Lemma chunk_geometry i : 0 <= i < nchunks P ->
+    let off := chunk_offset P i in
+    0 <= s0 P i - off /\ s0 P i - off <= c_ns P /\ s0 P i < s1 P i /\ s1 P i <= c_ns P /\
+    s0 P i = i * c_size P /\ ((i = 0 /\ off = 0) \/ (1 <= i /\ off = c_to P)).
+  Proof.
+    intros Hi off. pose proof (bound_range P Hns Hsize i Hi) as Hb.
+    rewrite <- (s0_bound P Hns Hsize i Hi), <- (s1_bound P Hns Hsize) in Hb.
+    assert (Hs0 : s0 P i = i * c_size P) by reflexivity.
+    unfold off, chunk_offset. destruct (i =? 0) eqn:E.
+    - repeat split; try lia.
+    - assert (c_to P <= i * c_size P) by (destruct Hts; [nia|lia]).
+      repeat split; try lia.
+  Qed.
+
+  Lemma chunk_wf_window i r : 0 <= i < nchunks P -> valid_row r ->
+    s0 P i <= r_sample r < s1 P i ->
+    let off := chunk_offset P i in
+    let a := py_start (c_ns P) (s0 P i - off) in
+    let b := py_stop (c_ns P) (s1 P i + c_L P - c_to P) in
+    let len := Z.max 0 (b - a) in
+    chunk_wf V src P (cidx P) i a len r = Some (window V src P (r_sample r) (r_chan r)) /\
+    (r_sample r + off - i * c_size P) + (c_L P - c_to P) < len.
+  Proof.
+    intros Hi [Hv Hc] Hs off a b len.
+    destruct (chunk_geometry i Hi) as (Ha0 & Ha1 & Hlt & Hs1 & Hs0 & Hoff). fold off in Ha0, Ha1, Hoff.
+    assert (Ea : a = s0 P i - off).
+    { unfold a, py_start. destruct (s0 P i - off <? 0) eqn:E; lia. }
+    assert (Eb : b = Z.min (s1 P i + c_L P - c_to P) (c_ns P)).
+    { unfold b, py_stop. destruct (s1 P i + c_L P - c_to P <? 0) eqn:E; lia. }
+    assert (Hlen : r_sample r - c_to P + c_L P < a + len /\ a + len = b) by (unfold len; lia).
+    assert (Hq0 : a <= r_sample r - c_to P) by lia.
+    split; [|lia].
+    unfold chunk_wf, chan_row. fold off. rewrite zlen_cidx.
+    assert (Ew : wrap_index (zlen (c_geom P)) (r_chan r) = Some (r_chan r)).
+    { unfold wrap_index. assert (E : (0 <=? r_chan r) && (r_chan r <? zlen (c_geom P)) = true) by lia.
+      now rewrite E. }
+    rewrite Ew.
+    rewrite (sequence_map_some _ (fun t => r_sample r - c_to P + t)).
+    - reflexivity.
+    - intros t Ht. apply in_zrange in Ht. rewrite Z2Nat.id in Ht by lia.
+      unfold wrap_index.
+      assert (E : (0 <=? r_sample r + off - i * c_size P + t - c_to P) &&
+                  (r_sample r + off - i * c_size P + t - c_to P <? len) = true) by lia.
+      rewrite E. cbn. f_equal. lia.
+  Qed.
+
+  Lemma slice_rows_in tb i r : StronglySorted Z.le (map r_sample tb) ->
+    In r (slice_rows P tb i) -> In r tb /\ s0 P i <= r_sample r < s1 P i.
+  Proof.
+    intros Hs Hin. unfold slice_rows in Hin.
+    destruct (in_slice _ _ _ _ drow Hin) as [k [Hk [Hkl Hn]]].
+    set (sm := map r_sample tb) in *.
+    assert (Esm : nth k sm 0 = r_sample r).
+    { unfold sm. change 0 with (r_sample drow). rewrite map_nth. now rewrite Hn. }
+    split; [rewrite <- Hn; apply nth_In; exact Hkl|].
+    rewrite <- Esm. split.
+    - assert (Hl : length sm = length tb) by (unfold sm; apply map_length).
+      apply ss_suffix_ge; [exact Hs|]. lia.
+    - apply ss_prefix_lt. lia.
+  Qed.
+
+  Lemma last_in {A} (l : list A) d : l <> [] -> In (last l d) l.
+  Proof.
+    induction l as [|x l IH]; intros H; [congruence|].
+    destruct l as [|y l]; [now left|]. right. apply IH. discriminate.
+  Qed.
+
+  Definition canon_write (r : row) : Z * wf V :=
+    (r_wfi r, window V src P (r_sample r) (r_chan r)).
+
+  Lemma chunk_writes_canon tb i : 0 <= i < nchunks P ->
+    StronglySorted Z.le (map r_sample tb) -> Forall valid_row tb ->
+    chunk_writes V src P (cidx P) tb i = Some (map canon_write (slice_rows P tb i)).
+  Proof.
+    intros Hi Hs Hv. unfold chunk_writes.
+    destruct (slice_rows P tb i) as [|r0 rows] eqn:Er; [reflexivity|].
+    assert (Hrows : forall r, In r (r0 :: rows) -> valid_row r /\ s0 P i <= r_sample r < s1 P i).
+    { intros r Hr. rewrite <- Er in Hr. destruct (slice_rows_in tb i r Hs Hr) as [Hin Hrg].
+      split; [|exact Hrg]. rewrite Forall_forall in Hv. now apply Hv. }
+    assert (Hne : r0 :: rows <> []) by discriminate.
+    destruct (Hrows (last (r0 :: rows) drow) (last_in _ drow Hne)) as [Hlv Hls].
+    destruct (chunk_wf_window i _ Hi Hlv Hls) as [_ Hass].
+    apply Z.ltb_lt in Hass. rewrite Hass.
+    apply sequence_map_some. intros r Hr. destruct (Hrows r Hr) as [Hrv Hrs].
+    destruct (chunk_wf_window i r Hi Hrv Hrs) as [Hw _]. rewrite Hw. reflexivity.
+  Qed.
+
+  Lemma valid_rows_in_recording tb : Forall valid_row tb ->
+    Forall (fun r => 0 <= r_sample r < c_ns P) tb.
+  Proof. apply Forall_impl. intros r [Hv _]. lia. Qed.
+
+  (* every job succeeds and together they write, for each table row, the window of that row *)
+  Lemma all_writes_canon tb : StronglySorted Z.le (map r_sample tb) -> Forall valid_row tb ->
+    all_writes V src P (cidx P) tb = Some (map canon_write tb).
+  Proof.
+    intros Hs Hv. unfold all_writes, job_writes.
+    rewrite (sequence_map_some _ (fun i => map canon_write (slice_rows P tb i))).
+    - cbn [option_map]. f_equal.
+      rewrite <- (map_map (slice_rows P tb) (map canon_write)), <- concat_map.
+      f_equal. apply slices_partition; auto. now apply valid_rows_in_recording.
+    - intros i Hi. apply in_zrange in Hi. pose proof (nchunks_spec P Hns Hsize).
+      rewrite Z2Nat.id in Hi by lia. now apply chunk_writes_canon.
+  Qed.
+End Window.
+Set Default Proof Using "Type".
+
+(* ------------------------------------------------------------------ *)
+(* the memmap: writes to distinct rows commute                         *)
+(* ------------------------------------------------------------------ *)
+Section Memory.
+  Variable V : Type.
+  Notation key := (fun e : Z * wf V => Z.to_nat (fst e)).
+
+  Lemma upd_length {A} (l : list A) k x : length (upd l k x) = length l.
+  Proof. revert k. induction l as [|y l IH]; intros [|k]; cbn; auto. Qed.
+
+  Lemma upd_nth_same {A} (l : list A) k x d : (k < length l)%nat -> nth k (upd l k x) d = x.
+  Proof. revert k. induction l as [|y l IH]; intros [|k] H; cbn in *; try lia; auto. apply IH. lia. Qed.
+
+  Lemma upd_nth_other {A} (l : list A) k k' x d : k <> k' -> nth k' (upd l k x) d = nth k' l d.
+  Proof.
+    revert k k'. induction l as [|y l IH]; intros [|k] [|k'] H; cbn; auto; try congruence.
+  Qed.
+
+  Lemma aw_length (ws : list (Z * wf V)) m : length (apply_writes V ws m) = length m.
+  Proof.
+    revert m. induction ws as [|e ws IH]; intros m; cbn; [reflexivity|].
+    unfold apply_writes in IH. rewrite IH. apply upd_length.
+  Qed.
+
+  Lemma aw_nth_notin (ws : list (Z * wf V)) m k : ~ In k (map key ws) ->
+    nth k (apply_writes V ws m) None = nth k m None.
+  Proof.
+    revert m. induction ws as [|e ws IH]; intros m H; cbn; [reflexivity|].
+    cbn in H. unfold apply_writes in IH. rewrite IH by tauto.
+    apply upd_nth_other. tauto.
+  Qed.
+
+  Lemma aw_nth_in (ws : list (Z * wf V)) m e : NoDup (map key ws) -> In e ws ->
+    (key e < length m)%nat -> nth (key e) (apply_writes V ws m) None = Some (snd e).
+  Proof.
+    revert m. induction ws as [|e0 ws IH]; intros m Hnd Hin Hk; [contradiction|].
+    cbn [map] in Hnd. inversion Hnd as [|? ? Hn0 Hnd']; subst.
+    change (apply_writes V (e0 :: ws) m) with (apply_writes V ws (upd m (key e0) (Some (snd e0)))).
+    destruct Hin as [->|Hin].
+    - rewrite aw_nth_notin by exact Hn0. now apply upd_nth_same.
+    - apply IH; auto. now rewrite upd_length.
+  Qed.
+
+  (* any schedule (permutation) of the same writes to distinct rows gives the same memmap *)
+  Lemma writes_commute (ws sched : list (Z * wf V)) m : NoDup (map key ws) ->
+    Permutation sched ws -> apply_writes V sched m = apply_writes V ws m.
+  Proof.
+    intros Hnd Hp.
+    assert (Hnd' : NoDup (map key sched)).
+    { eapply Permutation_NoDup; [|exact Hnd]. apply Permutation_map. now symmetry. }
+    apply nth_ext with (d := None) (d' := None); [now rewrite !aw_length|].
+    intros k Hk. rewrite aw_length in Hk.
+    destruct (in_dec Nat.eq_dec k (map key ws)) as [Hin|Hnin].
+    - apply in_map_iff in Hin. destruct Hin as [e [<- He]].
+      rewrite (aw_nth_in ws m e Hnd He Hk).
+      apply aw_nth_in; auto. eapply Permutation_in; [symmetry; exact Hp|exact He].
+    - rewrite (aw_nth_notin ws m k Hnin). apply aw_nth_notin.
+      intros Hin. apply Hnin. eapply Permutation_in; [|exact Hin]. now apply Permutation_map.
+  Qed.
+End Memory.
